@@ -15,6 +15,7 @@ def main():
     ctx.ambient = json.loads(os.environ.get('VERIF_AMBIENT') or 'null')
     if ctx.ambient:
         ctx.counters['ambient.hashseed-%s' % ctx.ambient['hashseed']] += 1
+        ctx.counters['ambient.python-O' if ctx.ambient.get('optimize') else 'ambient.asserts-on'] += 1
         ctx.counters['ambient.cwd-%s' % ('verif' if ctx.ambient['cwd'] == core.VERIF else 'repo' if ctx.ambient['cwd'] == core.REPO else 'root')] += 1
     cover.start()          # before athlib is imported: line coverage of the anchored functions (report only)
     core.import_athlib()
